@@ -4,6 +4,7 @@
  O2  no `--` from nested unary minus: the C05 tree oracle (wf: Minus~Minus) on both layout paths
  O3  `[ [[`: is_brackets_string == "the formatted key starts with a long-bracket string"; format_index/format_field pad such keys
  O4  a leading single-line comment / shebang is always followed by a newline (format_token)
+ O5  format_if collapses `if c then stmt end` onto one line only when no comment sits on if/condition/then/block
 """
 import json, re, z3
 
@@ -345,6 +346,95 @@ def o4_comment_newline(ses, rep):
     return flagged
 
 
+# ------------------------------------------------------------------------------------------------ O5 (collapse next to comments)
+def o5_collapse(ses, rep):
+    """format_if: the one-line `if c then stmt end` form is only chosen when no comment sits on `if` (trailing), the condition, `then`
+    (either side) or inside the block - otherwise a line comment would swallow the rest of the collapsed line"""
+    flagged = []
+    ghosts = {}
+
+    def who(ex_, st, v):
+        v = deref_val(ex_, st, v)
+        hc = ex_.havoc_calls.get(v.oid) if isinstance(v, Lazy) else None
+        if hc:
+            return hc[0].split("::")[-1]
+        if isinstance(v, Lazy):
+            m_ = re.match(r"ret:([^*.]+)", v.label)
+            return m_.group(1).split("::")[-1] if m_ else v.label
+        return None
+
+    def g(kind, name):
+        return ghosts.setdefault((kind, name), z3.Bool(f"comment:{kind}:{name}"))
+
+    def hook(ex_, st, callee, args, dty):
+        c = canon(callee)
+        last = c.split("::")[-1]
+        if last in ("has_trailing_comments", "has_leading_comments") and args:
+            nm = who(ex_, st, args[0])
+            if nm:
+                return Sym(g("trail" if last == "has_trailing_comments" else "lead", nm), "bool")
+        if last == "contains_comments" and args:
+            nm = who(ex_, st, args[0])
+            if nm in ("then_token", "if_token", "end_token"):
+                return Sym(z3.Or(g("lead", nm), g("trail", nm)), "bool")
+            if nm:
+                return Sym(g("any", nm), "bool")
+        if last == "remove_condition_parentheses":
+            return deref_val(ex_, st, args[0])
+        if re.fullmatch(r"<.* as (ToOwned|Clone)>::(to_owned|clone)", c):
+            v = deref_val(ex_, st, args[0])
+            if isinstance(v, Lazy):
+                return v
+        return NotImplemented
+    ex = ses.executor("lib", "default", hooks=[hook], inline=lambda n, f: canon(n).split("::")[-1] in ("is_if_guard", "should_collapse_simple_conditionals", "config"))
+    ex.max_block_visits = 3
+    ex.max_paths = 40000
+    fn = ses.need(ex, "format_if")
+    args = [RefV(ex.fresh_lazy(t.lstrip("&"), p)) if t.startswith("&") else ex.fresh_lazy(t, p) for p, t in fn.params]
+    outs = ex.run(fn, args)
+    n = 0
+    for pi, o in enumerate(outs):
+        if o.kind != "return":
+            continue
+        names = [t[1].split("::")[-1] for t in o.trace if t[0] == "havoc"]
+        collapsed = "format_block" not in names and ("format_last_stmt" in names or "format_stmt" in names or "format_last_stmt_no_trivia" in names
+                                                     or "format_stmt_no_trivia" in names)
+        if not collapsed:
+            continue
+        n += 1
+        need_clear = [g("trail", "if_token"), g("lead", "then_token"), g("trail", "then_token"), g("any", "condition"), g("any", "block")]
+        r, m = ses.obligation(f"format_if/path{pi}/collapse-only-without-comments", list(o.pc), z3.Or(need_clear),
+                              "collapsed `if c then stmt end` => no comment on if/condition/then/block")
+        if r == "sat":
+            where = [str(x) for x in need_clear if z3.is_true(m.eval(x, model_completion=True))]
+            flagged.append((f"format_if/path{pi}/collapse-only-without-comments", f"an if statement is collapsed onto one line although {where} holds",
+                            "collapse", {"where": where}))
+    rep.bounds["format_if_collapse_paths"] = n
+    if n == 0:
+        raise Inconclusive("format_if: collapse branch not recognised")
+    return flagged
+
+
+def replay_collapse(info):
+    binp = common.native_build("default")
+    srcs = ["if ready then -- c\n\tstart()\nend\nfinish()\n", "if ready --[[c]] then\n\treturn\nend\n", "if -- c\n\tready then\n\treturn\nend\n",
+            "if ready then\n\treturn -- c\nend\n", "if ready -- c\nthen\n\treturn\nend\nfinish()\n",
+            "local function f()\n\tif ready then -- c\n\t\treturn\n\tend\n\tg()\nend\n"]
+    for src in srcs:
+        for mode in ("Always", "ConditionalOnly"):
+            rc, out, err = common.run_stylua(binp, src, ["--collapse-simple-statement", mode])
+            if rc != 0:
+                continue
+            ok, perr = parses(binp, out, "lua51")
+            try:
+                same = [t for t in luaexpr.tokenize(out) if t[0] != "comment"] == [t for t in luaexpr.tokenize(src) if t[0] != "comment"]
+            except luaexpr.LuaSyntaxError:
+                same = False
+            if not ok or not same:
+                return f"--collapse-simple-statement {mode}: {src!r} -> {out!r} (code swallowed by a comment / does not re-parse)", {"source": src, "mode": mode, "output": out}
+    return None, {}
+
+
 # ------------------------------------------------------------------------------------------------ replay
 def parses(binp, text, syn):
     """does the text re-parse under the syntax? (a second formatting pass is the parser's verdict)"""
@@ -423,7 +513,7 @@ def replay_comment(info):
     return None, {}
 
 
-REPLAYS = {"semicolon": replay_semicolon, "brackets": replay_brackets, "comment": replay_comment}
+REPLAYS = {"semicolon": replay_semicolon, "brackets": replay_brackets, "comment": replay_comment, "collapse": replay_collapse}
 
 
 def run(ses, rep):
@@ -438,6 +528,7 @@ def run(ses, rep):
     for fs in ("default", "full"):
         flagged += o3_brackets(ses, rep, fs)
     flagged += o4_comment_newline(ses, rep)
+    flagged += o5_collapse(ses, rep)
     # O2 through the C05 machinery (reduced)
     o2 = run_o2(ses, rep)
     rep.samples.append({"flagged": [(f[0], f[1]) for f in flagged][:6]})
